@@ -68,6 +68,15 @@ type HOp struct {
 	// Parked: (gate part) the add was held at ctree.add.upgrade below ParkNode.
 	Parked   bool     `json:"parked,omitempty"`
 	ParkNode []string `json:"park_node,omitempty"`
+
+	// Sorted: (walk) the walk is WalkSorted; KV is in the order of the visits.
+	Sorted bool `json:"sorted,omitempty"`
+	// Yield: (query, walk) the visitor yields the processor that many times after
+	// every reported leaf (a scheduling device: it widens the visit, decides nothing).
+	Yield int `json:"yield,omitempty"`
+	// Foreign: the tree handed out a value of a type nobody ever stored (recorded
+	// as -1 where it was observed): where and which type.
+	Foreign string `json:"foreign,omitempty"`
 }
 
 // History is the replayable unit of the stress part.
@@ -81,6 +90,8 @@ type History struct {
 	// written while this history ran.
 	RaceReport string `json:"race_report,omitempty"`
 	Note       string `json:"note,omitempty"`
+	// Start: (burst part) what the racers found: "empty" | "populated" (labels only).
+	Start string `json:"start,omitempty"`
 }
 
 func (o *HOp) String() string {
@@ -110,7 +121,10 @@ func (o *HOp) String() string {
 	case "hupd":
 		fmt.Fprintf(&b, "h%d@%q.Update(%d)", o.H, o.Path, o.Val)
 	case "query", "walk", "final":
-		fmt.Fprintf(&b, "%s(%q)=%s", o.Kind, o.Path, kvstr(o.KV))
+		fmt.Fprintf(&b, "%s(%q)=%s", visitKind(o), o.Path, kvstr(o.KV))
+		if o.Foreign != "" {
+			fmt.Fprintf(&b, " (%s)", o.Foreign)
+		}
 	case "del", "delcond":
 		fmt.Fprintf(&b, "%s(%q)=%q", o.Kind, o.Path, o.Paths)
 	case "walkdel":
@@ -1038,6 +1052,11 @@ func judge(h *History, exactTimeout, timeout time.Duration) (v hverdict) {
 	}()
 	if h.Panic != "" {
 		return hverdict{class: "panic", msg: "an operation panicked: " + h.Panic}
+	}
+	// Clauses that need no sequential model (they also hold for histories that
+	// store nil, which the model below does not cover).
+	if cl, msg := universalClauses(h); cl != "" {
+		return hverdict{class: cl, msg: msg}
 	}
 	c, err := compile(h, true)
 	if err != nil {
